@@ -24,5 +24,48 @@ SPEC = {
 }
 
 
+def cli_histories(ctx):
+    """the reactions the solve command leaves in <name>.inkfemsol balance the loads of the structure it was asked to
+    solve with the options it was given - also when other solve commands ran on the same path before"""
+    import random
+    from .. import cli
+    from .. import gen_struct as G
+    from .. import stages as S
+    from . import C12
+    rng = random.Random(ctx.seed + 3)
+    runs = bad = 0
+    steps = [(["solve", "x.inkfem"], False), (["solve", "-w", "x.inkfem"], True), (["solve", "-e", "1e-3", "x.inkfem"], False), (["solve", "-w", "-e", "1e-4", "x.inkfem"], True)]
+    want, tried, done = (3 if ctx.tier == "quick" else 30), 0, 0
+    checked = 0
+    while done < want and tried < 6 * want:
+        s = [G.gen_portal, G.gen_beam, G.gen_chain][tried % 3](rng)
+        tried += 1
+        text = s.text()
+        if cli.run(ctx, ["solve", "x.inkfem"], files={"x.inkfem": text}, name="c03p").status != 0:
+            continue        # not solvable at the default error (C05 / C19 decide that): nothing is written
+        done += 1
+        hr = cli.run_history(ctx, [a for a, w in steps], files={"x.inkfem": text}, name="c03h", timeout=300)
+        for k, ((args, w), rk) in enumerate(zip(steps, hr)):
+            runs += 1
+            sol = rk.files.get("x.inkfemsol")
+            if rk.status != 0 or not sol:
+                continue
+            o = S.run_pipeline(ctx, [{"Text": text, "Weight": w, "Solve": True, "Assemble": True, "Error": args[args.index("-e") + 1] if "-e" in args else ""}])[0]
+            if not solcore.solved(o):
+                continue
+            o = dict(o, Reactions={k_: [repr(v) for v in r] for k_, r in C12.reactions_of(sol).items()})
+            fails = P.c03_reactions(o, w)
+            checked += 1
+            if fails:
+                if bad < 3:
+                    ctx.violation("after %s in one directory, the reactions in x.inkfemsol do not balance the loads of what `%s` was asked to solve: %s" % (
+                        [" ".join(a) for a, _ in steps[:k + 1]], " ".join(args), "; ".join(fails[:3])), {"history": [a for a, _ in steps[:k + 1]], "text": text, "failures": fails[:6]})
+                bad += 1
+    ctx.log("%d solve commands in command-line histories (solve, solve -w, solve -e ... on one path), %d solution files judged: the reactions written balance the loads" % (runs, checked))
+    return runs
+
+
 def run(ctx):
     core.run(ctx, SPEC)
+    n = cli_histories(ctx)
+    ctx.coverage["cli_history_commands"] = n
